@@ -1,6 +1,8 @@
 package sim
 
 import (
+	"github.com/hyperledger/burrow/crypto"
+	"encoding/binary"
 	"math/rand"
 
 	"bytes"
@@ -88,7 +90,24 @@ func BankVMProfile(seed int64, out *Recorder, nOps int) *Chain {
 	}
 	var contracts []deployed
 	kinds := []string{"stop", "revert", "loop", "invalid", "store", "storeRevert", "storeInvalid", "suicide", "suicideTo", "log", "logRevert", "forward", "innerCall"}
+	// choices added later draw from a stream of their own, so that history seeds keep naming the same histories
+	rng2 := newRng(seed*7919 + 17)
 	deploy := func(who int, kind string, value uint64) {
+		// now and then somebody sends coins to the address the deployment is about to create (it is computable from the
+		// deployer's address and sequence number): the deployment must then fail or keep those coins, never forget them
+		if rng2.Intn(6) == 0 {
+			acc := c.App.VerifAccountKeeper().GetAccount(c.Ctx(), c.Accts[who].Addr)
+			if acc != nil {
+				seqb := make([]byte, 8)
+				binary.LittleEndian.PutUint64(seqb, acc.GetSequence()+1) // the ante handler has incremented it when the message runs
+				next := crypto.NewContractAddress(crypto.MustAddressFromBytes(c.Accts[who].Addr), seqb)
+				from := (who + 1 + rng2.Intn(cfg.NAcc-1)) % cfg.NAcc
+				coins := c.Coins([]int64{1, 777000, 5000000}[rng2.Intn(3)], Bond)
+				c.Do(from, []D{{"t": "bank.send", "from": Hex(c.Accts[from].Addr), "to": Hex(next.Bytes()), "amt": CoinsJ(coins), "toKind": ""}},
+					banktypes.NewMsgSend(c.Accts[from].Addr, sdk.AccAddress(next.Bytes()), coins))
+				c.Out.Note(D{"k": "note", "prefunded_next_contract_address": Hex(next.Bytes())})
+			}
+		}
 		rt, _ := hex.DecodeString(vmPrograms[kind])
 		m := cvmtypes.NewMsgDeploy(c.Accts[who].Addr.String(), value, initCode(rt), "", nil, false, false)
 		res := c.Deliver(who, 3000000, DefaultFee, &m)
